@@ -86,6 +86,12 @@ CLAIMED["C06"] = ("other",
     "Same numeric assumptions as C01/C07/C08; the floor-division lemma of C08.",
     "DESIGN.md §4 C06")
 
+CLAIMED["C02"] = ("other",
+    "dependence slices on go/ssa (record selection, field provenance), exactly-once call/append and loop-shape rules, constants under branch edges, interval analysis with a nibble transfer function for the BCD timestamp",
+    "Decides structural clauses for all histories and inputs: the record update/release work on is selected only through look-ups keyed by the request's session reference (never an element of the subscriber-wide record list); UpdateCDR is called exactly once on every success path and appends the converted usage exactly once; the conversion loops append exactly one element per reported container in order; each listed CDR member takes its value from the corresponding request member and no other; cause-for-closing is 1 on the partial edge and 0 otherwise; every BCD octet of the opening timestamp has nibbles within 0..9 and the sign octet follows the offset's sign for all zone offsets. Content equality of decoded records and the split copy are not decided.",
+    "Assumes time.Time accessor ranges, |zone offset| < 24 h, years 0..9999; append/range semantics of Go.",
+    "DESIGN.md §4 C02")
+
 # id -> reason, for properties not (yet) claimed
 NOT_APPLICABLE = {
 }
